@@ -202,7 +202,7 @@ class EpochManager
     {
       // go to the target node
       const auto upper_epoch = epoch & kUpperMask;
-      DBGROUP_VERIF_POINT(kEpochLookupBegin, node);
+      DBGROUP_VERIF_POINT_CONSTEXPR(kEpochLookupBegin, node);
       while (node->upper_epoch_ > upper_epoch) {
         DBGROUP_VERIF_POINT(kEpochLookupStep, node);
         node = node->next;
